@@ -608,6 +608,9 @@ class Interp:
             if v.cls == "Group" and attr == "name":
                 return Top("group name")
             return Fn("method", recv=v, name=attr)
+        if isinstance(v, Const) and not isinstance(v.v, (str, bytes, int, float, bool, type(None), tuple, list, dict)) and hasattr(v.v, attr) and not callable(getattr(v.v, attr)):
+            a = getattr(v.v, attr)
+            return Const(a)
         if isinstance(v, (DictS, ListLit, ListOf, TupS, Const, Leaf, SetS, Choice, Top)):
             return Fn("method", recv=v, name=attr)
         if isinstance(v, Fn) and v.kind == "lib":
@@ -621,10 +624,13 @@ class Interp:
         if isinstance(e.slice, ast.Slice):
             lo = self.eval(e.slice.lower, sc) if e.slice.lower is not None else Const(None)
             hi = self.eval(e.slice.upper, sc) if e.slice.upper is not None else Const(None)
+            st = self.eval(e.slice.step, sc) if e.slice.step is not None else Const(None)
+            if isinstance(lo, Const) and isinstance(hi, Const) and isinstance(st, Const) and e.slice.step is not None and isinstance(v, (ListLit, TupS)):
+                return type(v)(v.elts[lo.v:hi.v:st.v])
             if isinstance(lo, Const) and isinstance(hi, Const) and e.slice.step is None:
                 if isinstance(v, (ListLit, TupS)):
                     return type(v)(v.elts[lo.v:hi.v])
-                if isinstance(v, Const) and isinstance(v.v, (str, tuple, list)):
+                if isinstance(v, Const) and isinstance(v.v, (str, tuple, list, bytes)):
                     return Const(v.v[lo.v:hi.v])
                 if isinstance(v, Leaf):
                     return v.derive(f"[{lo.v}:{hi.v}]")
@@ -650,6 +656,11 @@ class Interp:
                 return v.elts[k.v]
             except IndexError:
                 raise _Raise("IndexError")
+        if isinstance(v, (ListLit, TupS)) and isinstance(k, Const) and isinstance(k.v, slice):
+            try:
+                return type(v)(v.elts[k.v])
+            except (TypeError, ValueError):
+                raise _Raise("bad slice")
         if isinstance(v, ListOf) and isinstance(k, Const) and isinstance(k.v, int):
             return v.elem
         if isinstance(v, Const) and isinstance(k, Const):
